@@ -439,7 +439,7 @@ impl Prop for C17 {
                 // reserved / end-of-vector / missing codes and type descriptor bytes
                 case.family = "bcf_typed_values".into();
                 let mut p = CallSetParams::standard(5, 6);
-                p.kind_w = [5, 2, 2, 2, 1, 1, 0, 0, 0, 0];
+                p.kind_w = [5, 2, 2, 2, 1, 1, 0, 0, 0, 0, 0, 0];
                 let (mut callset, cfg) = gen::gen_callset(&mut rng, &p);
                 if callset.recs.is_empty() {
                     let s = callset.samples.clone();
@@ -484,7 +484,7 @@ impl Prop for C17 {
                 case.family = "create".into();
                 let mut p = CallSetParams::standard(6, 8);
                 p.allow_ploidy = true;
-                p.kind_w = [5, 2, 2, 2, 1, 1, 1, 1, 1, 1];
+                p.kind_w = [5, 2, 2, 2, 1, 1, 1, 1, 1, 1, 1, 1];
                 let (callset, cfg) = gen::gen_callset(&mut rng, &p);
                 let vcf = callset.to_vcf();
                 let container = *rng.pick(&Container::ALL);
